@@ -25,8 +25,10 @@ static void do_common(char* sret) { if (do_throws) { __VERIF_throw_new((char*)&g
 void DO_OPER1(char* sret, uint32_t op, char* v) { n_do++; do_arity = 1; do_op = op; do_lhs = ((struct BV*)v)->p; do_common(sret); }
 void DO_OPER2(char* sret, uint32_t op, char* l, char* r) { n_do++; do_arity = 2; do_op = op; do_lhs = ((struct BV*)l)->p; do_rhs = ((struct BV*)r)->p; do_common(sret); }
 uint8_t BOXED_CAST_BOOL(char* bv, char* conv) { struct bv_data* d = (struct bv_data*)((struct BV*)bv)->p; __CPROVER_assert(d == &cdata[0] || d == &cdata[1], "C02: only the constants are read"); int j = d == &cdata[1]; __CPROVER_assert(ckind[j] == 1, "C02: a constant is read as bool only when it is a bool"); return (uint8_t)cbool[j]; }
-static struct bv_data bool_data; static int n_bvbool, bvbool_val;
-void BV_FROM_BOOL(char* self, char* b, uint8_t rv) { n_bvbool++; bvbool_val = *(uint8_t*)b & 1; ((struct BV*)self)->p = (char*)&bool_data; ((struct BV*)self)->pn = 0; }
+static struct bv_data bool_data; static int n_bvbool, bvbool_val, bool_is_const;
+/* two ways to box a bool: the mutable Boxed_Value(bool) constructor and const_var(bool) */
+void BV_FROM_BOOL(char* self, char* b, uint8_t rv) { n_bvbool++; bool_is_const = 0; bvbool_val = *(uint8_t*)b & 1; ((struct BV*)self)->p = (char*)&bool_data; ((struct BV*)self)->pn = 0; }
+void F__ZN10chaiscript9const_varEb(char* sret, uint8_t b) { n_bvbool++; bool_is_const = 1; bvbool_val = b & 1; ((struct BV*)sret)->p = (char*)&bool_data; ((struct BV*)sret)->pn = 0; }
 static int n_bn; static char* bn_of;
 void BN_CTOR(char* self, char* bv) { n_bn++; bn_of = ((struct BV*)bv)->p; ((struct BV*)self)->p = bn_of; ((struct BV*)self)->pn = 0; }
 static int n_ga; static char ga_t; static int n_cv; static char cv_t; static struct bv_data cv_data; static uint64_t cv_bits;
@@ -94,10 +96,12 @@ int main(void) {
         __CPROVER_assert(0, "witness: prefix folded");
       } else {
         __CPROVER_assert(const_val == (char*)&bool_data && ckind[0] == 1 && nodes[0].text.n == 1 && nodes[0].text.buf[0] == '!' && bvbool_val == !cbool[0], "C02: !b folds to the negated bool constant");
+        __CPROVER_assert(bool_is_const, "C08: a folded constant is const like every literal: a function that receives it by reference cannot change the syntax tree");
         __CPROVER_assert(0, "witness: not folded");
       }
     } else if (k0 == AST_Logical_And || k0 == AST_Logical_Or) {
       __CPROVER_assert(NK == 2 && c0 && c1 && ckind[0] == 1 && ckind[1] == 1 && const_val == (char*)&bool_data && bvbool_val == (k0 == AST_Logical_And ? (cbool[0] && cbool[1]) : (cbool[0] || cbool[1])), "C02: b1 && b2 / b1 || b2 over bool constants fold to their value");
+      __CPROVER_assert(bool_is_const, "C08: a folded constant is const like every literal: a function that receives it by reference cannot change the syntax tree");
       __CPROVER_assert(0, "witness: logical folded");
     } else {
       __CPROVER_assert(k0 == AST_Binary && NK == 2 && c0 && c1 && ckind[0] == 0 && ckind[1] == 0, "C02: a binary operator is folded only over two arithmetic constants");
